@@ -36,7 +36,10 @@ _recv("C03", "TLC explores every cutting of the stream at the granularity of the
       "timeouts at any point and checks that the observations never leave the frame-level oracle; the real "
       "library is run over exhaustive partitions of short streams (and sampled ones of long streams), timeouts at "
       "every byte position and in pairs, head and frames in one flow through the real connect(); all traces are "
-      "validated by TLC against one deterministic machine, so all segmentations give identical results.",
+      "validated by TLC against one deterministic machine, so all segmentations give identical results.  Also: the "
+      "response head itself in pieces of 1-7 bytes, a non-blocking transport (would-block at every position), a prior "
+      "connection of the same object that ended inside a frame, and - through WebSocketApp - the same frames in one "
+      "segment or apart (nothing waits in a buffer).",
       "TLC exhaustive model checking (SegIndep, NoLoss, Conservation) + TLC trace validation over exhaustive cut sets")
 _recv("C04", "Reassembly is stated twice in TLA+ (machine + independent MsgsOf) and model-checked; all compositions of "
       "short messages into 1..4 fragments with control frames in the gaps, per-fragment delivery and validation "
@@ -48,7 +51,9 @@ _recv("C05", "Frame legality is a TLA+ operator (Codec!FrameFaults) plus the mac
       "TLC exhaustive model checking (RejectIffIllegal) + TLC trace validation + TLC batch over all close codes")
 _recv("C07", "The machine makes the pong an obligation that must be discharged before the next transport read (TLC: "
       "PongBeforeRead, PongsMirrorPings); every ping length 0..125 and pings at random positions of streams are "
-      "executed and the interleaving of transport reads and writes is validated by TLC.",
+      "executed and the interleaving of transport reads and writes is validated by TLC; pings after the application's "
+      "own send_close() (Conn.tla's world) and the automatic pong racing with ping()/pong() callers of other threads "
+      "(Send.tla's monitor over enumerated and random schedules) are covered too.",
       "TLC exhaustive model checking + TLC trace validation of read/write interleavings")
 
 CHECKS["C09"] = dict(
@@ -80,7 +85,9 @@ CHECKS["C10"] = dict(
     text="Http!RequestHeaders/RequestLine define the request for every target and option set; TLC checks meta-properties of the "
          "definition (mandatory headers once, port rule, IPv6 brackets, cookie order) over the component product, then judges "
          "every request captured from the real library (all targets, all pairs of option values, random full combinations, three "
-         "successive connections for key freshness, key = base64 of the single os.urandom(16) draw observed).",
+         "successive connections for key freshness, key = base64 of the single os.urandom(16) draw observed), with debug tracing "
+         "on and off, over transports that accept 1 / 50 bytes per write, and for every opening handshake of a reconnecting "
+         "WebSocketApp with a callable header option.",
     note="Trusts TLC, the strict request parser in the harness and the websockets package for the independent-server clause; "
          "header order is not constrained (the property does not).", ref="4 C10")
 CHECKS["C18"] = dict(
@@ -174,7 +181,10 @@ _app("C15", "Retry exactly one interval after each observable loss, no on_close 
 _app("C16", "App.tla carries the check() predicate and the ping thread's stamping exactly as written and TLC explores the (interval, timeout) grid x "
      "pong latency patterns x interleavings of ping thread and loop; the same grid is executed on the real code in virtual time (silent from the "
      "k-th ping on, latencies below/at/above the timeout, concurrent traffic, invalid settings) and judged by TLC: periodic pings with the payload, "
-     "report no later than 2 timeouts after the first unanswered ping, never for a responsive peer.",
+     "report no later than 2 timeouts after the first unanswered ping, never for a responsive peer.  The model carries "
+     "three repaired defects as switchable variants (stamp overwrite, torn check(), unbounded frame read) that TLC must "
+     "find; the real code is additionally preempted by its own ping thread at every source line of check(), and run against "
+     "peers that fall silent inside a frame, slow frames of responsive peers and sub-second settings.",
      "TLC model checking over the interval/timeout grid (with the repaired defect re-enabled as a negative control) + TLC trace validation")
 
 CHECKS["C11"] = dict(
